@@ -51,6 +51,8 @@ def tune_c01(rng, k):
     k["nregions"] = rng.choice([1, 1, 2, 3])
     if rng.random() < 0.4:
         k["wipe"] = 0.3
+    if rng.random() < 0.3:
+        k["double_retract"] = 0.3
 
 
 def tune_c02(rng, k):
@@ -65,6 +67,8 @@ def tune_c02(rng, k):
     k["w"]["g92xyz"] = 0
     k["w"]["region_shrink"] = 0
     k["p_abort"] = 0.1
+    if rng.random() < 0.3:
+        k["double_retract"] = 0.3
     if mode == "clear" and rng.random() < 0.5:
         # disable ... enable brackets inside a clear-path program: still nothing may be altered, but the
         # decisions after re-enabling depend on the position tracked while exclusion was off
@@ -86,6 +90,8 @@ def tune_c03(rng, k):
     k["w"]["at_noop"] = 0
     if rng.random() < 0.3:
         k["wipe"] = 0.3
+    if rng.random() < 0.3:
+        k["double_retract"] = 0.3
 
 
 def tune_c04(rng, k):
@@ -334,6 +340,7 @@ class RestartCheck(object):
         k["aim_w"] = [50, 5, 10, 35]
         k["prints"] = rng.choice([1, 2])
         k["wipe"] = rng.choice([0, 0.3, 0.6])
+        k["double_retract"] = rng.choice([0, 0.3])
         conf = gen.rand_deferral_config(rng)
         k["settings"] = {"extendedExcludeGcodes": conf, "exitingExcludedRegionGcode": gen.rand_script(rng, "EXIT"),
                          "enteringExcludedRegionGcode": gen.rand_script(rng, "ENTER")}
